@@ -179,6 +179,10 @@ def lock_discipline_violations(cls, lock_field: str, fields: List[str], calls=("
                         bad.append(f"{fname}:{n.lineno} stores self.{x.attr} outside the lock")
             if isinstance(n, ast.Call) and isinstance(n.func, ast.Attribute) and n.func.attr in calls:
                 bad.append(f"{fname}:{n.lineno} calls .{n.func.attr}() outside the lock")
+            # reads count too: a decision taken on a protected field without the lock is stale
+            # (another task may be in the middle of updating it)
+            if isinstance(n, ast.Attribute) and isinstance(n.ctx, ast.Load) and isinstance(n.value, ast.Name) and n.value.id == "self" and n.attr in fields:
+                bad.append(f"{fname}:{n.lineno} reads self.{n.attr} outside the lock")
         for c in ast.iter_child_nodes(n):
             visit(c, locked, fname)
 
